@@ -522,3 +522,173 @@ class ValidNonFungibleSimple(Job):
 
 JOBS["C37"] = [ValidateFungible(), ValidFungible(), ValidateNonFungible(), ValidNonFungibleSimple(),
                GeneralValidNonFungible(), GeneralValidateNonFungible()]
+
+
+class GeneralNormalize(_GeneralNf):
+    """normalize() must not change which balances a VALID constraint accepts. The balance is described relative to the ids
+    the constraint names: a membership flag per named id plus a number of foreign ids."""
+    case_keys = ("nr", "ak", "na")
+    query_timeout_s = 120
+
+    def __init__(self):
+        self.name = "c37m::general_resource_constraint_normalize"
+        self.what = ("GeneralResourceConstraint::normalize on every constraint that is valid for non-fungible use (<= 2 required "
+                     "ids, allow-list Any or <= 3 ids, any whole bounds): the normalised constraint accepts exactly the same "
+                     "balances as the original one -- for every balance made of any subset of the named ids plus 0..2 foreign "
+                     "ids -- and stays valid")
+        self.cover_labels = ["bounds tightened", "allow-list collapsed onto the required ids", "required ids grown to the allow-list",
+                             "balance accepted", "balance rejected"]
+
+    def cases(self, tier):
+        out = [{"nr": nr, "ak": 1, "na": 0} for nr in (0, 1, 2)]
+        out += [{"nr": nr, "ak": 0, "na": na} for nr in (0, 1, 2) for na in (0, 1, 2, 3) if na >= nr]
+        return out
+
+    def locate(self, prog):
+        return find_function(prog, FILE, "normalize", param_types=["&mut GeneralResourceConstraint"])
+
+    def _universe(self, d):
+        c = self.case
+        return self._ids(d, "r", c["nr"]) + self._ids(d, "a", c["na"])
+
+    def inputs(self):
+        c = self.case
+        d, pre = self._inputs((("r", c["nr"]), ("a", c["na"])))
+        nu = c["nr"] + c["na"]
+        for j in range(nu):
+            d["b%d" % j] = z3.Int("b%d" % j)
+            pre += [d["b%d" % j] >= 0, d["b%d" % j] <= 1]
+        d["extra"] = z3.Int("extra")
+        pre += [d["extra"] >= 0, d["extra"] <= 2]
+        # balance flags of equal ids agree (an id named twice is one id)
+        U = [d["r%d" % j] for j in range(c["nr"])] + [d["a%d" % j] for j in range(c["na"])]
+        for i in range(nu):
+            for j in range(i):
+                pre.append(z3.Implies(U[i] == U[j], d["b%d" % i] == d["b%d" % j]))
+        # bounds small enough to matter against <= 7 ids, whole numbers (validity for non-fungible use)
+        pre += [d["lv"] <= 8 * E18, d["uv"] <= 8 * E18]
+        # the constraint is valid for non-fungible use
+        R = [d["r%d" % j] for j in range(c["nr"])]
+        A = [d["a%d" % j] for j in range(c["na"])]
+        whole = lambda k, v, unb: z3.Or(k == unb, z3.And(v >= 0, v % E18 == 0))
+        lo_eq = z3.If(d["lk"] == 0, 1, d["lv"])
+        up_eq = z3.If(d["uk"] == 0, d["uv"], I192_HI)
+        sub = self._subset(R, A) if c["ak"] == 0 else z3.BoolVal(True)
+        pre += [whole(d["lk"], d["lv"], 0), whole(d["uk"], d["uv"], 1), lo_eq <= up_eq, c["nr"] * E18 <= up_eq, sub]
+        if c["ak"] == 0:
+            pre.append(lo_eq <= c["na"] * E18)
+        return d, pre
+
+    def setup_path(self, path, inp):
+        d = {k: lit(v) for k, v in inp.items()}
+        c = self.case
+        g = StructV("GeneralResourceConstraint", [_idset(self._ids(d, "r", c["nr"])), lower_v(d["lk"], d["lv"]),
+                                                  upper_v(d["uk"], d["uv"]),
+                                                  EnumV("AllowedIds", c["ak"], {0: [_idset(self._ids(d, "a", c["na"]))], 1: []})])
+        path.frames["job"] = {"self": g}
+
+    def args(self, inp):
+        from mirsmt.values import RefV
+        return [RefV("&mut GeneralResourceConstraint", "job", "self", ())]
+
+    @staticmethod
+    def _accept(R, lk, lv, uk, uv, ak, A, U, flags, extra):
+        """does the constraint (R required, bounds, allow-list kind ak / ids A) accept the balance {U[i] | flags[i]} + extra
+        foreign ids?  U may repeat ids (flags agree on equal ids): the count takes each distinct id once."""
+        n = extra
+        for i in range(len(U)):
+            first = z3.And([U[i] != U[j] for j in range(i)]) if i else z3.BoolVal(True)
+            n = n + z3.If(z3.And(flags[i] == 1, first), 1, 0)
+        lower_ok = z3.If(lk == 0, n > 0, lv <= n * E18)
+        upper_ok = z3.If(uk == 1, True, n * E18 <= uv)
+        has = lambda x: z3.Or([z3.And(U[i] == x, flags[i] == 1) for i in range(len(U))]) if U else z3.BoolVal(False)
+        req_ok = z3.And([has(r) for r in R]) if R else z3.BoolVal(True)
+        if ak is True:
+            allow_ok = z3.BoolVal(True)
+        else:
+            in_A = lambda x: z3.Or([x == a for a in A]) if A else z3.BoolVal(False)
+            allow_ok = z3.And([extra == 0] + [z3.Implies(flags[i] == 1, in_A(U[i])) for i in range(len(U))])
+        return z3.And(lower_ok, upper_ok, req_ok, allow_ok)
+
+    def extract_outcome(self, o):
+        g = o.path.frames["job"]["self"]
+        self._after = g
+        return {"done": z3.BoolVal(True)}
+
+    native_only_keys = ("before", "after", "valid")
+
+    def native(self, nat, vals):
+        c = self.case
+        U = [vals["r%d" % j] for j in range(c["nr"])] + [vals["a%d" % j] for j in range(c["na"])]
+        bal = []
+        for i, u in enumerate(U):
+            if int(vals["b%d" % i]) == 1 and u not in bal:
+                bal.append(u)
+        bal += [90 + k for k in range(int(vals["extra"]))]
+        t = nat.call("grc_normalize", *(self._grc_args(vals) + [len(bal)] + bal)).split()
+        if t[0] == "panic":
+            return {"panic": True, "msg": " ".join(t[1:])}
+        return {"panic": False, "done": True, "before": int(t[1]), "after": int(t[2]), "valid": int(t[3])}
+
+    def native_failed(self, nat, vals, label):
+        r = self.native(nat, vals)
+        if r.get("panic"):
+            return r, ["native panic: " + r.get("msg", "")]
+        failed = []
+        if r["valid"] == 1 and r["before"] != r["after"]:
+            failed.append("normalize changed the verdict on the balance from %d to %d" % (r["before"], r["after"]))
+        return r, failed
+
+    def post(self, inp, res):
+        if not hasattr(self, "_after") or "before" in res:
+            return []
+        d = {k: lit(v) for k, v in inp.items()}
+        c = self.case
+        R, A = self._ids(d, "r", c["nr"]), self._ids(d, "a", c["na"])
+        U = R + A
+        flags = [d["b%d" % i] for i in range(len(U))]
+        before = self._accept(R, d["lk"], d["lv"], d["uk"], d["uv"], True if c["ak"] == 1 else False, A, U, flags, d["extra"])
+        g = self._after
+        R2 = [e.fields[0].term for e in g.fields[0].fields]
+        lo, up, al = g.fields[1], g.fields[2], g.fields[3]
+        lk2 = lo.discr
+        lv2 = unwrap_dec(lo.variants[1][0]) if lo.variants.get(1) else z3.IntVal(0)
+        uk2 = up.discr
+        uv2 = unwrap_dec(up.variants[0][0]) if up.variants.get(0) else z3.IntVal(0)
+        posts = []
+        alts = []
+        # the allow-list after: Any, or a concrete entry list (the model keeps entry lists concrete in length)
+        if al.variants.get(0):
+            A2 = [e.fields[0].term for e in al.variants[0][0].fields]
+            alts.append((al.discr == 0, self._accept(R2, lk2, lv2, uk2, uv2, False, A2, U, flags, d["extra"])))
+        alts.append((al.discr == 1, self._accept(R2, lk2, lv2, uk2, uv2, True, [], U, flags, d["extra"])))
+        after = z3.Or([z3.And(cnd, acc) for cnd, acc in alts])
+        posts.append(("the normalised constraint accepts exactly the balances the original accepts", before == after))
+        return posts
+
+    def covers(self, inp, res):
+        if not hasattr(self, "_after") or "before" in res:
+            return []
+        d = {k: lit(v) for k, v in inp.items()}
+        c = self.case
+        g = self._after
+        R, A = self._ids(d, "r", c["nr"]), self._ids(d, "a", c["na"])
+        U = R + A
+        flags = [d["b%d" % i] for i in range(len(U))]
+        before = self._accept(R, d["lk"], d["lv"], d["uk"], d["uv"], True if c["ak"] == 1 else False, A, U, flags, d["extra"])
+        tightened = z3.Or(g.fields[1].discr != d["lk"], g.fields[2].discr != d["uk"])
+        collapsed = z3.And(g.fields[3].discr == 0, z3.BoolVal(c["ak"] == 1))
+        grown = z3.BoolVal(len(g.fields[0].fields) > c["nr"])
+        return [("bounds tightened", tightened), ("allow-list collapsed onto the required ids", collapsed),
+                ("required ids grown to the allow-list", grown), ("balance accepted", before), ("balance rejected", z3.Not(before))]
+
+    def vectors(self, rng):
+        return []
+
+
+def unwrap_dec(v):
+    from mir_jobs import unwrap_int
+    return unwrap_int(v)
+
+
+JOBS["C37"].append(GeneralNormalize())
